@@ -8,7 +8,26 @@ import (
 	"github.com/trajectoryjp/spatial_id_go/v4/integrate"
 )
 
+// mergeTooBig: the model refines every eligible input to the finest input zooms; indices that would
+// leave TLC's integers there make the case unrepresentable (it is skipped, not judged).
+func mergeTooBig(ids []ID) bool {
+	var mh, mv int64
+	for _, s := range ids {
+		mh, mv = maxI(mh, s.H), maxI(mv, s.V)
+	}
+	for _, s := range ids {
+		dh, dv := uint(mh-s.H), uint(mv-s.V)
+		if dh > 30 || dv > 30 || (abs64(s.X)+1)<<dh >= 1<<29 || (abs64(s.Y)+1)<<dh >= 1<<29 || (abs64(s.F)+1)<<dv >= 1<<29 {
+			return true
+		}
+	}
+	return false
+}
+
 func evMergeExt(t *Tracer, w Win, ids []ID, h, v int64) {
+	if mergeTooBig(ids) {
+		return
+	}
 	real := w.embedExtList(ids)
 	snap := append([]string(nil), real...)
 	var r2 []string
@@ -35,6 +54,9 @@ func evMergeExt(t *Tracer, w Win, ids []ID, h, v int64) {
 }
 
 func evMergeSp(t *Tracer, w Win, ids []ID, z int64) {
+	if mergeTooBig(ids) {
+		return
+	}
 	real := w.embedSpList(ids)
 	snap := append([]string(nil), real...)
 	var r2 []string
@@ -87,6 +109,11 @@ func (r Rng) mergeCandidates(w Win, h, v, spread int64, sp bool) []ID {
 			if w.Abs {
 				nh := int64(1) << uint(h)
 				tgt.X = ((tgt.X % nh) + nh) % nh
+			}
+			if r.Chance(0.3) { // a second target far away whose indices agree with the first in their low bits
+				if tw, ok := r.strided(w, base); ok {
+					tgt = tw
+				}
 			}
 		}
 		var split func(s ID, depth int64)
@@ -435,7 +462,7 @@ func evMergeSteps(t *Tracer, w Win, ids []ID, h, v int64) {
 			mh, mv = maxI(mh, m.H), maxI(mv, m.V)
 		}
 	}
-	if len(el) == 0 {
+	if len(el) == 0 || mergeTooBig(el) {
 		return
 	}
 	groups := map[string]*integrate.HighSpatialID{}
